@@ -128,6 +128,7 @@ fn one_run(report: &mut Report, seed: u64, rid: u64, dir: &str, steps: usize) ->
     cfg.cache = rng.chance(1, 2);
     cfg.cpus = *rng.pick(&[2usize, 4, 8, 16]);
     cfg.sync_io = rng.chance(1, 4);
+    cfg.ttl = cfg.version >= 2 && rng.chance(2, 3);
     let path = format!("{dir}/space-{rid}.feox");
     let _ = std::fs::remove_file(&path);
     let store = match storeutil::open(&cfg, Some(&path)) {
@@ -230,7 +231,68 @@ fn one_run(report: &mut Report, seed: u64, rid: u64, dir: &str, steps: usize) ->
                     }
                 }
                 8 => std::thread::sleep(std::time::Duration::from_millis(rng.range(20, 130))),
-                _ => {}
+                _ => {
+                    // the other ways a generation is replaced: compare-and-swap, TTL-only rewrite, counters, and a
+                    // counter re-created by an increment that finds its (still unflushed) generation already expired
+                    let ck = format!("ct-{:02}", rng.below(6)).into_bytes();
+                    match rng.below(4) {
+                        0 => {
+                            if let Some(cur) = run.model.get(&k).cloned() {
+                                run.seq += 1;
+                                let nv = values::make(Tag { key_id: kid(&k), writer: 1, seq: run.seq }, cur.len().max(22));
+                                run.log.push(format!("compare_and_swap({}, len {})", hex(&k), nv.len()));
+                                match run.store().compare_and_swap(&k, &cur, &nv) {
+                                    Ok(true) => {
+                                        run.model.insert(k.clone(), nv);
+                                    }
+                                    other => return fail(&run, "space:cas".into(), format!("compare_and_swap with the current value answered {other:?}")),
+                                }
+                                run.report.count("cas_replacements", 1);
+                            }
+                        }
+                        1 if cfg.ttl => {
+                            if run.model.contains_key(&k) {
+                                run.log.push(format!("update_ttl({})", hex(&k)));
+                                if let Err(e) = run.store().update_ttl(&k, 3600 + rng.below(1000)) {
+                                    return fail(&run, "space:update_ttl".into(), format!("update_ttl failed: {e:?}"));
+                                }
+                                run.report.count("ttl_only_rewrites", 1);
+                            }
+                        }
+                        2 if cfg.ttl && !run.model.contains_key(&ck) => {
+                            // generation that is expired from the start (explicit timestamp an hour back, 1 s to live)
+                            let now = std::time::SystemTime::now().duration_since(std::time::UNIX_EPOCH).map(|d| d.as_nanos() as u64).unwrap_or(0);
+                            let old_ts = now - 3_600_000_000_000 - rng.below(1000);
+                            run.log.push(format!("insert_with_ttl_and_timestamp({}, 8 bytes, 1 s, an hour ago) + atomic_increment", hex(&ck)));
+                            if let Err(e) = run.store().insert_with_ttl_and_timestamp(&ck, &77i64.to_le_bytes(), 1, Some(old_ts)) {
+                                return fail(&run, "space:insert".into(), format!("insert of an already expired counter failed: {e:?}"));
+                            }
+                            if rng.chance(1, 3) {
+                                std::thread::sleep(std::time::Duration::from_millis(rng.range(0, 120)));
+                            }
+                            let d = rng.range(1, 50) as i64;
+                            match run.store().atomic_increment(&ck, d) {
+                                Ok(v) if v == d => {
+                                    run.model.insert(ck.clone(), v.to_le_bytes().to_vec());
+                                }
+                                other => return fail(&run, "space:increment".into(), format!("increment of an expired counter by {d} answered {other:?} (expected a re-creation from the delta)")),
+                            }
+                            run.report.count("expired_counter_recreations", 1);
+                        }
+                        _ => {
+                            let d = rng.range(1, 50) as i64;
+                            let base = run.model.get(&ck).map(|v| i64::from_le_bytes(v[..8].try_into().unwrap())).unwrap_or(0);
+                            run.log.push(format!("atomic_increment({}, {d})", hex(&ck)));
+                            match run.store().atomic_increment(&ck, d) {
+                                Ok(v) if v == base + d => {
+                                    run.model.insert(ck.clone(), v.to_le_bytes().to_vec());
+                                }
+                                other => return fail(&run, "space:increment".into(), format!("increment of {base} by {d} answered {other:?}")),
+                            }
+                            run.report.count("counter_increments", 1);
+                        }
+                    }
+                }
             }
             if rng.chance(1, 5) || step + 1 == steps {
                 match run.flush_and_check("churn") {
